@@ -24,7 +24,10 @@ def tasks(tier):
     return [('contracts.c03', 'method_task', ('C04', m, pol)) for m in METHODS for pol in pols] + \
         c03.bulk_tasks('C04', ('expire',)) + \
         [('contracts.c10', 'peekitem_task', ('C04', True)), ('contracts.c10', 'peekitem_task', ('C04', False))] + \
-        [('contracts.c10', 'pull_task', (m, s)) for m in ('pull', 'peek') for s in ('front', 'back')]
+        [('contracts.c10', 'pull_task', (m, s)) for m in ('pull', 'peek') for s in ('front', 'back')] + \
+        [('contracts.c10', 'queue_traces', (m,)) for m in ('pull', 'peek')]
+    # (queue_traces: a head is judged expired and removed inside ONE write transaction -- otherwise the row
+    #  removed "as expired" may by then be another, live item)
 
 
 def post_process(results, tier):
